@@ -152,7 +152,7 @@ Section FillClasses.
   (* the array consumes exactly as many plain numbers as the ranges ask for *)
   Lemma expand_exact (nums more : list (tok (T:=T))) e acc c :
     Forall (plain (T:=T)) nums -> Z.of_nat (List.length acc + List.length nums) = e ->
-    exists vals, expand (nums ++ more)%list (Some e) acc c = XOk (acc ++ vals)%list (c + List.length nums) /\
+    exists vals, expand S (nums ++ more)%list (Some e) acc c = XOk (acc ++ vals)%list (c + List.length nums) /\
                  vals = map (fun t => Some (tval t, tint t)) nums.
   Proof.
     revert acc c; induction nums as [|t nums IH]; intros acc c Hp Hlen.
@@ -262,7 +262,9 @@ Section StageClasses.
     induction cells as [|[c0 cs0] cells IH]; intros H c cs u k fc Hin Hf Hl Hu Hk Hfc; [destruct Hin|].
     cbn [stage_fill] in H. apply bind_ok in H; destruct H as [[] [H0 H]].
     destruct Hin as [E|Hin]; [|eapply IH; eauto].
-    injection E as -> ->. rewrite Hf, Hl in H0. unfold fill_tr_length in Hk. rewrite Hk in H0.
+    injection E as -> ->. rewrite Hf, Hl in H0.
+    apply bind_ok in H0; destruct H0 as [[] [_ H0]].
+    unfold fill_tr_length in Hk. rewrite Hk in H0.
     rewrite Hu in H0. simpl in H0.
     revert H0. generalize (fillers u all) Hfc. clear.
     intros l. induction l as [|q l IHl]; intros Hfc H0; [destruct Hfc|].
